@@ -46,6 +46,7 @@ def main():
     assert rc == 0, out
     try:
         demos = [f for f in glob.glob(os.path.join(src, "*_test.go"))]
+        os.makedirs(os.path.join(wt, pkgdir), exist_ok=True)
         for d in demos:
             shutil.copy(d, os.path.join(wt, pkgdir, "zz_" + os.path.basename(d)))
         democmd = f"go test {race} -count=1 -timeout {tmo}s -run '{run}' ./{pkgdir}/"
@@ -72,7 +73,10 @@ def main():
         meta["ran"].append("unedited suite with the change: rc=%d" % rc)
     finally:
         sh(f"git -C /repo worktree remove --force {wt}")
-    # checks against /repo itself
+    # checks against /repo itself (serialised: one patched /repo at a time)
+    import fcntl
+    lk = open("/tmp/seedval-repo.lock", "w")
+    fcntl.flock(lk, fcntl.LOCK_EX)
     rc, out = sh("git -C /repo status --porcelain")
     assert out.strip() == "", "/repo not clean: " + out
     rc, out = sh(f"git -C /repo apply {os.path.join(src, 'patch.diff')}")
